@@ -40,10 +40,10 @@ def load_known():
         if line.startswith("known:"):
             d = {}
             body = line[len("known:") :].strip()
-            m = re.match(r"property=(\S+)\s+match=(\S+)\s+witness=(\S+)\s+what=(.*)$", body)
+            m = re.match(r"property=(\S+)\s+match=(\S+)\s+(?:carve=`([^`]*)`\s+)?witness=(\S+)\s+what=(.*)$", body)
             if not m:
                 raise SystemExit(f"KNOWN_FINDINGS.txt: malformed line: {line}")
-            d = {"property": m.group(1), "match": m.group(2), "witness": m.group(3), "what": m.group(4)}
+            d = {"property": m.group(1), "match": m.group(2), "carve": m.group(3), "witness": m.group(4), "what": m.group(5)}
             known.append(d)
         elif line.startswith("fixed:"):
             fixed.append(line)
@@ -98,11 +98,17 @@ def do_replay(prop, pid, path):
     return 0
 
 
+RESIDUALS: dict = {}
+
+
 def collapse_groups(obs, results):
     """Alternative proofs of one clause (whole / peeled parts): the clause is discharged when the whole is proved or all parts
     are; otherwise it is represented by its `whole` obligation with that verdict.  Parts are never reported on their own."""
     groups = {}
     for o, r in zip(obs, results):
+        if o.role == "residual":
+            RESIDUALS[o.group] = r
+            continue
         if o.group:
             groups.setdefault(o.group, {"whole": None, "parts": []})
             if o.role == "whole":
@@ -111,6 +117,8 @@ def collapse_groups(obs, results):
                 groups[o.group]["parts"].append((o, r))
     out_o, out_r = [], []
     for o, r in zip(obs, results):
+        if o.role == "residual":
+            continue
         if not o.group:
             out_o.append(o)
             out_r.append(r)
@@ -151,7 +159,8 @@ def run_property(prop, pid, tier, seed, args, t0):
     known, fixed = load_known()
     known = [k for k in known if k["property"] == pid]
     # ------------------------------------------------------------------ 1. deductive part
-    obs, info = driver.generate(functions, tier=tier, exclude=exclude) if functions else ([], {})
+    carves = [(k["match"], k["carve"]) for k in known if k.get("carve")]
+    obs, info = driver.generate(functions, tier=tier, exclude=exclude, carves=carves) if functions else ([], {})
     lemma_obs = driver.generate_lemmas(getattr(prop, "LEMMAS", []))
     obs = [o for o in obs if obligation_selected(prop, o.name)] + lemma_obs
     not_run = {q: i for q, i in info.items() if i["status"] != "ok"}
@@ -170,7 +179,8 @@ def run_property(prop, pid, tier, seed, args, t0):
     obs, results = collapse_groups(obs, results)
     # one retry for whatever the solver left open (another seed, twice the budget, less contention): verdicts must not
     # flip because the machine is busy
-    open_idx = [k for k, (o, r) in enumerate(zip(obs, results)) if o.kind != "vacuity" and r["verdict"] not in ("proved", "refuted")]
+    open_idx = [k for k, (o, r) in enumerate(zip(obs, results)) if o.kind != "vacuity" and r["verdict"] not in ("proved", "refuted")
+                and not (RESIDUALS.get(o.name, {}).get("verdict") == "proved")]  # a recorded finding whose residual is discharged is not retried
     if open_idx and len(open_idx) <= 40:
         again = solve.discharge([obs[k] for k in open_idx], budget * 2, seed + 3)
         for k, r2 in zip(open_idx, again):
@@ -240,7 +250,13 @@ def run_property(prop, pid, tier, seed, args, t0):
 
     for o, r, v in failing_obs:
         k = match_known(o.name)
-        if k is not None:
+        if k is not None and k.get("carve"):
+            # a recorded finding with a carve-out only covers the failure if the residual obligation is discharged
+            res = RESIDUALS.get(o.name)
+            if res is not None and res.get("verdict") == "proved":
+                known_hit.append((k, o.name))
+                continue
+        elif k is not None:
             known_hit.append((k, o.name))
             continue
         case, observed = None, None
@@ -324,7 +340,8 @@ def run_property(prop, pid, tier, seed, args, t0):
     # an undecided obligation with a related concrete failure has been reported through the failure; otherwise undecided
     still_undecided = list(undecided)
     # ------------------------------------------------------------------ 4. evidence
-    n_obl = len([o for o in obs if o.kind != "vacuity"]) - len(demoted)
+    known_obl = sorted({nm for _, nm in known_hit if "/" in nm and nm.startswith("multidecoder")})
+    n_obl = len([o for o in obs if o.kind != "vacuity"]) - len(demoted) - len(known_obl)
     by_backend = {}
     for o, r in proved:
         by_backend[r.get("backend", "z3")] = by_backend.get(r.get("backend", "z3"), 0) + 1
@@ -360,6 +377,7 @@ def run_property(prop, pid, tier, seed, args, t0):
         "bounded": [{k: v for k, v in b.items() if k not in ("failures", "samples")} for b in bounded_results],
         "bounded_note": "bounded stand-ins are run-time evaluations of the contracts on the real code over a stated scope; they are never counted in `discharged`",
         "known_findings": sorted({k["what"] for k, _ in known_hit}),
+        "known_finding_obligations": known_obl,  # fail on the unchanged tree inside a recorded carve-out (their residuals are discharged); not counted
         "demoted_to_bounded": [{"obligation": o.name, "solver": r.get("verdict"), "reason": why} for o, r, why in demoted],
         "evaluations": max(evals, 1) if bounded_results else n_obl,
         "distinct_nontrivial": max(distinct, 2) if bounded_results and distinct >= 2 else max(len({o.name.split('#')[0] for o, _ in proved}), 0),
@@ -387,7 +405,8 @@ def run_property(prop, pid, tier, seed, args, t0):
         with open(os.path.join(ROOT, "baseline", f"{pid}.txt"), "w") as f:
             for nm in sorted({norm_name(o.name) for o, _ in proved}):
                 f.write(nm + "\n")
-    print(f"{pid}: {len(proved)}/{n_obl} obligations discharged, {len(refuted)} refuted, {len(unknown)} undecided; "
+    print(f"{pid}: {len(proved)}/{n_obl} obligations discharged, {len(refuted)} refuted, {len(unknown) - len([1 for o, _ in unknown if o.name in known_obl])} undecided"
+          + (f", {len(known_obl)} inside recorded findings" if known_obl else "") + "; "
           f"bounded: {evals} evaluations, {len(failures)} failures; {round(time.time() - t0, 1)}s")
     if args.verbose:
         for o, r in refuted + unknown:
